@@ -158,3 +158,9 @@ P["C09"]["st_any"] = _fields("chan", [2, 3, 4])                             # to
 # connection c" for all 41 handlers (it was only stated in C18.lean until it was proved)
 P["C18"].setdefault("extra_modules", [])
 P["C18"]["extra_modules"] = P["C18"]["extra_modules"] + ["Irc.Props.C18Frame"]
+
+# the general serialisability theorem: any number of connections, any programs, any schedule of lock sections
+# (round 8; Irc/Props/C18General.lean + C18GeneralLemmas0..8)
+P["C18"]["extra_modules"] = P["C18"]["extra_modules"] + ["Irc.Props.C18General"]
+# the user records carry the source string that every relayed copy is prefixed with (C01: "truly attributed")
+P["C01"]["st_any"] = _fields("user", [2, 3, 5, 6])
